@@ -39,7 +39,7 @@ def types_cover(F):
                             for fname, sub in leaf["fields"]:
                                 if sub.get("k") == "Binding":
                                     bound[fname] = sub["hid"]
-                            refs = {x["res"]["hid"] for x in walk(arm["body"]) if x.get("k") == "Path" and x.get("res", {}).get("r") == "local"}
+                            refs = _effective_refs(label, arm, leaf)
                             todo = diverges(arm["body"])
                             per_variant.setdefault(leaf["variant"], (set(), todo))
                             per_variant[leaf["variant"]] = ({f for f, h in bound.items() if h in refs}, todo)
@@ -65,6 +65,59 @@ def types_cover(F):
             r.violate("hash/eq coherence | %s" % v, F.loc(sites["hash"]), "Hash and PartialEq of Types::%s use different field sets (%s vs %s): equal types could get different dedup slots" % (v, sorted(a), sorted(b)))
     r.count("types_variants", len(variants))
     return r
+
+
+def _local_hids(e):
+    return {x["res"]["hid"] for x in walk(e) if x.get("k") == "Path" and x.get("res", {}).get("r") == "local"}
+
+
+def _effective_refs(label, arm, leaf):
+    """Which pattern bindings does the arm body *effectively* use?
+    hash: the binding reaches a Hash::hash / Hasher::write* call (receiver or argument subtree);
+    eq:   the binding is compared (== / != / PartialEq::eq|ne) with the SAME-NAMED field of the other operand;
+    encode_type: the binding occurs inside the argument subtree of some call (a bare `let _ = f;` is not a use)."""
+    body = arm["body"]
+    out = set()
+    if label == "hash":
+        for c in walk(body):
+            if c.get("k") in ("Call", "MethodCall"):
+                cal = (c.get("callee") or "") + " " + (c.get("inst") or "")
+                if "hash::Hash::hash" in cal or "hash::Hasher::write" in cal or "hash::Hash::hash_slice" in cal:
+                    out |= _local_hids(c)
+        return out
+    if label == "eq":
+        other = {}
+        pat = arm["pat"]
+        if pat.get("k") == "Tuple" and len(pat["pats"]) > 1:
+            for q in pat_alternatives(pat["pats"][1]):
+                if q.get("k") == "Struct":
+                    for fname, sub in q["fields"]:
+                        if sub.get("k") == "Binding":
+                            other[sub["hid"]] = fname
+        mine = {sub["hid"]: fname for fname, sub in leaf["fields"] if sub.get("k") == "Binding"}
+        for c in walk(body):
+            sides = None
+            if c.get("k") == "Binary" and c.get("op") in ("==", "!="):
+                sides = (c["a"], c["b"])
+            elif c.get("k") == "MethodCall" and ("cmp::PartialEq::eq" in (c.get("callee") or "") or "cmp::PartialEq::ne" in (c.get("callee") or "")) and c.get("args"):
+                sides = (c["recv"], c["args"][0])
+            if not sides:
+                continue
+            a, b = _local_hids(sides[0]), _local_hids(sides[1])
+            for x, y in ((a, b), (b, a)):
+                for h in x:
+                    if h in mine and any(other.get(o) == mine[h] for o in y):
+                        out.add(h)
+        if not other:
+            # not the (self, other) tuple idiom: fall back to plain reference inside a comparison
+            for c in walk(body):
+                if c.get("k") == "Binary" and c.get("op") in ("==", "!="):
+                    out |= _local_hids(c)
+        return out
+    for c in walk(body):
+        if c.get("k") in ("Call", "MethodCall", "Struct"):
+            out |= _local_hids(c)
+    return out
 
 
 def nrm(s):
